@@ -39,7 +39,7 @@ def main():
             broken.append(dict(kind="regen", detail=repr(e)))
 
     # 1. Coq build
-    ok, out, loc = ctx.coq_build()
+    ok, out, loc = ctx.coq_build(mod.PROPS)
     if not ok:
         broken.append(dict(kind="proof-obligation", file=loc[0] if loc else None, line=loc[1] if loc else None, log=out[-1500:]))
     bad = ctx.forbidden_scan()
